@@ -175,6 +175,50 @@ def conv_task(src, dst, datatype, via_setter=False):
     return Task(name, run, functions=["spectrum.psd.Spectrum.get_converted_psd"])
 
 
+def refuse_task(src, via_setter=False):
+    """complex data: a one-sided vector has fewer entries than the two-sided / centred one it would come from, so no conversion
+    to 'onesided' can be lossless (the statement: returning to the original sides restores the original values exactly).
+    Contract taken from the statement: the request is refused and the object is left as it was -- if it returns, it is lossy."""
+    name = "%s.%s_to_onesided.complex.refused" % ("setSides" if via_setter else "get_converted_psd", src)
+
+    def run(tc):
+        dom = tc.smt()
+        I = tc.interp()
+        hints = {"src": src, "setter": via_setter}
+        tc.native = ("refuse", hints)
+
+        def thunk(I):
+            N = dom.input_int("NFFT")
+            I.assume(V.s_cmp(">=", N, 3))
+            psd = dom.input_array("psd", specs.len_sides(src, N), "float")
+            fs = dom.input_real("sampling")
+            I.assume(V.s_cmp(">", fs, 0))
+            obj = spectrum_obj(I, NFFT=N, sides=src, psd=psd, datatype="complex", sampling=fs, modified=False)
+            I.st = dict(N=N, psd=psd, obj=obj, before=psd.snap())
+            if via_setter:
+                I.setattr(obj, "sides", "onesided")
+                return obj.attrs["_Spectrum__psd"]
+            return I.call_qual("spectrum.psd.Spectrum.get_converted_psd", obj, "onesided")
+
+        def post(P):
+            st = P.interp.st
+            obj, psd = st["obj"], st["psd"]
+            if P.outcome == "return":
+                got = P.value
+                n = got.n if isinstance(got, Arr) else None
+                P.fail("complex-data:onesided-request-refused",
+                       "a complex-data object returned a 'onesided' PSD (%s values for %s stored ones): the negative-frequency "
+                       "content cannot be restored, the conversion is lossy" % (n, psd.n), replay=("refuse", hints))
+                return
+            P.ok("complex-data:onesided-request-refused", "raises %s" % P.value.exc)
+            P.prove("refused:sides-unchanged", obj.attrs["_Spectrum__sides"] == src, replay=("refuse", hints))
+            cache = obj.attrs["_Spectrum__psd"]
+            i = P.skolem("fi", 0, psd.n)
+            P.prove("refused:stored-psd-unchanged", V.b_and(V.s_eq(cache.n, psd.n), V.s_eq(cache.at(i), st["before"](i))), replay=("refuse", hints))
+        tc.run_paths(I, thunk, post)
+    return Task(name, run, functions=["spectrum.psd.Spectrum.get_converted_psd", "spectrum.psd.Spectrum._setSides"])
+
+
 # ---------------------------------------------------------------------------------
 # frequency axes
 
@@ -287,6 +331,9 @@ def tasks(tier):
                     continue
                 ts.append(conv_task(src, dst, dt))
                 ts.append(conv_task(src, dst, dt, via_setter=True))
+    for src in ("twosided", "centerdc"):
+        ts.append(refuse_task(src))
+        ts.append(refuse_task(src, via_setter=True))
     for s in SIDES:
         ts.append(axis_task(s))
     ts.append(lemma_task())
